@@ -82,6 +82,9 @@ def stepLine (st : St) (line : String) : St × String :=
       let p := IPool.init (n * e) e
       (.ipool p, s!"{p.cells} {p.room} {p.avail}")
     | _, _ => bad
+  | ["reset", "ipool0"] =>
+    -- `igris::pool p;` (default constructed, no zone)
+    (.ipool IPool.default, s!"{IPool.default.room} {IPool.default.avail}")
   | ["reset", "sop", s, a, n] =>
     match s.toNat?, a.toNat?, n.toNat? with
     | some s, some a, some n =>
@@ -130,6 +133,7 @@ def stepLine (st : St) (line : String) : St × String :=
       match i.toInt? with
       | some i => (st, if p.cellIsAllocated i then "1" else "0")
       | none => bad
+    | .ipool p, ["sz"] => (st, s!"{p.cells} {p.elemsz}")
     | .ipool p, ["it"] =>
       (st, "it:" ++ String.join (p.iterAll.map fun i => s!" {i}"))
     | .sop st p zt, ["c"] =>
